@@ -11,7 +11,12 @@ Three model streams:
                     solution set compared before/after with an independent Fraction elimination;
   * `solve`         solve_affine_equations_for on small integer systems (square, over-/under-
                     determined, permuted, with parameters) against `solveAffine`, checked by
-                    substitution and an independent uniqueness/integrality decision.
+                    substitution and an independent uniqueness/integrality decision;
+  * `solve-singular` the same solver, model and oracle on rank-deficient systems of every shape
+                    (every reduced row echelon form of rank < n for n = 2, 3, 4 unknowns, disguised,
+                    with dependent or inconsistent extra rows).  An accepted singular system is
+                    keyed by its shape (`singular_shape`), so that only the shape the known findings
+                    describe keeps their keys.
 """
 from __future__ import annotations
 
@@ -544,6 +549,65 @@ def classify_system(a_rows, b_rows, n):
         return "underdetermined", []
     return "unique", [m[i][n:] for i in range(n)]
 
+
+
+def free_column_pattern(a_rows, n):
+    """(pivot columns, {free column: number of non-zero entries}) of the reduced row echelon form
+    of A over Q, columns in the given order.  The reduced form is unique, so this is a property of
+    the system and of the order of its unknowns, not of any elimination routine."""
+    if not a_rows:
+        return [], {j: 0 for j in range(n)}
+    m, piv = rref([list(a) for a in a_rows], n)
+    return piv, {j: sum(1 for row in m if row[j] != 0) for j in range(n) if j not in piv}
+
+
+def in_row_space(rows, row):
+    """is `row` a rational combination of `rows`?"""
+    width = len(row)
+    if not rows:
+        return all(v == 0 for v in row)
+    _m1, p1 = rref([list(r) for r in rows], width)
+    _m2, p2 = rref([list(r) for r in rows] + [list(row)], width)
+    return len(p1) == len(p2)
+
+
+def singular_shape(a_rows, b_rows, n, vals, satisfied):
+    """Classification of an ACCEPTED system A X = B that has no unique solution.
+
+    `vals[j]` is the value returned for unknown j as a row over the columns of B.  Returns
+    (key suffix, explanation).  The suffix is empty exactly for the shape the known findings
+    describe: in the reduced row echelon form of A every column (pivot or free) has exactly one
+    non-zero entry, and every unknown got the value obtained by reading a combination of the given
+    equations that reduces to that single row "as if the unknown were alone in it", i.e. the row
+    (R_i | R_ij * value_j) is a rational combination of the rows of [A | B].  Anything else — a free
+    unknown that occurs in no equation or in two or more reduced rows, or a value that is not the
+    read-off of any combination of the equations — is a different failure and gets its own key:
+        :free=<which of 0 / 1 / 2+ occur as the number of non-zero entries of a free column of
+               the reduced form, `none` without free columns>:<satisfied|unsatisfied>
+        :free=...:misread:<satisfied|unsatisfied>
+    (satisfied = the returned assignment happens to satisfy every equation)."""
+    piv, free = free_column_pattern(a_rows, n)
+    counts = sorted(free.values())
+    sat = "satisfied" if satisfied else "unsatisfied"
+    classes = sorted({"0" if c == 0 else "1" if c == 1 else "2+" for c in counts})
+    tag = ":free=" + (",".join(classes) if classes else "none")
+    if any(c != 1 for c in counts):
+        return f"{tag}:{sat}", (
+            f"free unknown columns {sorted(free)} have {[free[j] for j in sorted(free)]} non-zero "
+            f"entries in the reduced row echelon form")
+    red, _ = rref([list(a) for a in a_rows], n) if a_rows else ([], [])
+    red = [row for row in red if any(v != 0 for v in row)]
+    aug = [list(a) + list(b) for a, b in zip(a_rows, b_rows)]
+    for j in range(n):
+        rows_j = [row for row in red if row[j] != 0]
+        if len(rows_j) != 1:
+            return f"{tag}:{sat}", f"column {j} has {len(rows_j)} non-zero entries"
+        row = rows_j[0]
+        if not in_row_space(aug, list(row) + [row[j] * v for v in vals[j]]):
+            return f"{tag}:misread:{sat}", (
+                f"the value of unknown {j} is not read off any combination of the equations")
+    return "", ""
+
 # }}}
 
 
@@ -673,44 +737,49 @@ def side(terms):
 class SolveStream(Stream):
     name = "solve"
 
+    @staticmethod
+    def _system(rng, unk, rows, rhs_rows, params, style):
+        """rows: m x n ints (columns in the order of `unk`); rhs_rows: m x (len(params)+1) ints"""
+        enc = lambda e: dumps(expr_to_sx(e))  # noqa: E731
+        unk = list(unk)
+        eqs = []
+        for a, b in zip(rows, rhs_rows):
+            lt = [(c, p.Variable(u)) for c, u in zip(a, unk)]
+            rt = [(c, pa) for c, pa in zip(b[:-1], params)] + [(b[-1], None)]
+            if style == "drop0":
+                lt = [t for t in lt if t[0] != 0]
+                rt = [t for t in rt if t[0] != 0]
+            elif style == "split":
+                # move some terms to the other side (sign flipped); no atom on both sides
+                l2, r2 = [], []
+                for c, a_ in lt:
+                    if rng.random() < 0.65:
+                        l2.append((c, a_))
+                    else:
+                        r2.append((-c, a_))
+                for c, a_ in rt:
+                    if rng.random() < 0.65:
+                        r2.append((c, a_))
+                    else:
+                        l2.append((-c, a_))
+                rng.shuffle(l2)
+                rng.shuffle(r2)
+                lt, rt = l2, r2
+            elif style == "twosided":
+                # add the same extra term to both sides (the true system is unchanged)
+                extra = rng.choice([(rng.choice([1, 2, -1]), p.Variable(rng.choice(unk))),
+                                    (rng.choice([1, 3]), None)]
+                                   + ([(rng.choice([1, -2]), params[0])] if params else []))
+                lt, rt = lt + [extra], rt + [extra]
+            eqs.append([enc(side(lt)), enc(side(rt))])
+        return {"unknowns": unk, "eqs": eqs, "style": style}
+
     def cases(self, rng, tier):
         vals = [-2, -1, 0, 1, 2]
         enc = lambda e: dumps(expr_to_sx(e))  # noqa: E731
 
         def system(n, rows, rhs_rows, params, style):
-            """rows: m x n ints; rhs_rows: m x (len(params)+1) ints"""
-            unk = UNKNOWNS[:n]
-            eqs = []
-            for a, b in zip(rows, rhs_rows):
-                lt = [(c, p.Variable(u)) for c, u in zip(a, unk)]
-                rt = [(c, pa) for c, pa in zip(b[:-1], params)] + [(b[-1], None)]
-                if style == "drop0":
-                    lt = [t for t in lt if t[0] != 0]
-                    rt = [t for t in rt if t[0] != 0]
-                elif style == "split":
-                    # move some terms to the other side (sign flipped); no atom on both sides
-                    l2, r2 = [], []
-                    for c, a_ in lt:
-                        if rng.random() < 0.65:
-                            l2.append((c, a_))
-                        else:
-                            r2.append((-c, a_))
-                    for c, a_ in rt:
-                        if rng.random() < 0.65:
-                            r2.append((c, a_))
-                        else:
-                            l2.append((-c, a_))
-                    rng.shuffle(l2)
-                    rng.shuffle(r2)
-                    lt, rt = l2, r2
-                elif style == "twosided":
-                    # add the same extra term to both sides (the true system is unchanged)
-                    extra = rng.choice([(rng.choice([1, 2, -1]), p.Variable(rng.choice(unk))),
-                                        (rng.choice([1, 3]), None)]
-                                       + ([(rng.choice([1, -2]), params[0])] if params else []))
-                    lt, rt = lt + [extra], rt + [extra]
-                eqs.append([enc(side(lt)), enc(side(rt))])
-            return {"unknowns": unk, "eqs": eqs, "style": style}
+            return self._system(rng, UNKNOWNS[:n], rows, rhs_rows, params, style)
 
         def rhs_choices(m, params, exhaustive_const):
             w = len(params) + 1
@@ -794,12 +863,13 @@ class SolveStream(Stream):
         return "diff"
 
     # --- the property's own statement -------------------------------------------------------
-    ATOMS = ["x", "y", "z", "p", "q", "a0", "a1"]
+    ATOMS = ["x", "y", "z", "w", "p", "q", "a0", "a1"]
+    NUNK = 4                      # ATOMS[:NUNK] may be unknowns, the rest are parameters
 
     @staticmethod
     def _env_of(vec):
-        return {"x": vec[0], "y": vec[1], "z": vec[2], "p": vec[3], "q": vec[4],
-                "a": (vec[5], vec[6], Fraction(0))}
+        return {"x": vec[0], "y": vec[1], "z": vec[2], "w": vec[3], "p": vec[4], "q": vec[5],
+                "a": (vec[6], vec[7], Fraction(0))}
 
     def _linear_form(self, e):
         """coefficients of `e` w.r.t. ATOMS and its constant term, found by exact evaluation at
@@ -814,10 +884,10 @@ class SolveStream(Stream):
                 v = list(zero)
                 v[i] = Fraction(1)
                 cs.append(qeval(e, self._env_of(v)) - c0)
-            for pt in ([Fraction(2), Fraction(-3), Fraction(5), Fraction(7, 2), Fraction(-1, 3),
-                        Fraction(4), Fraction(9, 5)],
-                       [Fraction(-1, 2), Fraction(3), Fraction(2, 7), Fraction(-6), Fraction(1),
-                        Fraction(5, 3), Fraction(-2)]):
+            for pt in ([Fraction(2), Fraction(-3), Fraction(5), Fraction(-7, 4), Fraction(7, 2),
+                        Fraction(-1, 3), Fraction(4), Fraction(9, 5)],
+                       [Fraction(-1, 2), Fraction(3), Fraction(2, 7), Fraction(8, 3), Fraction(-6),
+                        Fraction(1), Fraction(5, 3), Fraction(-2)]):
                 if qeval(e, self._env_of(pt)) != c0 + sum(c * v for c, v in zip(cs, pt)):
                     return None
         except RecursionError:
@@ -861,11 +931,16 @@ class SolveStream(Stream):
             if any(tot[i] != 0 for i in pidx) or c != 0:
                 bad = f"equation {n_eq} is not satisfied by {shown}"
                 break
-        if status == "underdetermined":
-            return "accepts-underdetermined", (
-                "accepted although the unknowns are not uniquely determined: " + (bad or shown))
-        if status == "inconsistent":
-            return "accepts-inconsistent", "accepted an inconsistent system: " + (bad or shown)
+        if status in ("underdetermined", "inconsistent"):
+            vals = [[got[u][0][i] for i in pidx] + [got[u][1]] for u in unk]
+            shape, why = singular_shape(a_rows, b_rows, len(unk), vals, bad is None)
+            why = f" [{why}]" if why else ""
+            if status == "underdetermined":
+                return "accepts-underdetermined" + shape, (
+                    "accepted although the unknowns are not uniquely determined: "
+                    + (bad or shown) + why)
+            return "accepts-inconsistent" + shape, (
+                "accepted an inconsistent system: " + (bad or shown) + why)
         if any(v.denominator != 1 for row in sol for v in row):
             return "accepts-nonintegral", f"accepted although the unique solution is not integral: {shown}"
         if bad is not None:
@@ -876,8 +951,10 @@ class SolveStream(Stream):
         """the same system with every unknown term on the left and every parameter/constant term
         on the right (no atom on both sides)"""
         uidx = [self.ATOMS.index(u) for u in unk]
-        atoms = [p.Variable("x"), p.Variable("y"), p.Variable("z"), p.Variable("p"), p.Variable("q"),
+        atoms = [p.Variable("x"), p.Variable("y"), p.Variable("z"), p.Variable("w"),
+                 p.Variable("p"), p.Variable("q"),
                  p.Subscript(p.Variable("a"), 0), p.Subscript(p.Variable("a"), 1)]
+        assert len(atoms) == len(self.ATOMS)
         eqs = []
         for coef, const in forms:
             lt = [(coef[i], atoms[i]) for i in uidx if coef[i] != 0]
@@ -896,7 +973,7 @@ class SolveStream(Stream):
         except Exception:
             return None              # raising is always allowed by the statement
         unk = list(pl["unknowns"])
-        if len(set(unk)) != len(unk) or any(u not in self.ATOMS[:3] for u in unk):
+        if len(set(unk)) != len(unk) or any(u not in self.ATOMS[:self.NUNK] for u in unk):
             return None
         forms = []
         for l, r in self._eqs(pl):
@@ -947,6 +1024,150 @@ class SolveStream(Stream):
         o[k] = o.get(k, 0) + 1
         s = acc.setdefault("styles", {})
         s[pl["style"]] = s.get(pl["style"], 0) + 1
+
+# }}}
+
+
+# {{{ stream 3b: solve_affine_equations_for on rank-deficient systems of every shape
+
+def rref_patterns(n, entries):
+    """every reduced row echelon form of rank r < n with n columns whose free entries are drawn
+    from `entries`: (pivot columns, r x n matrix).  A free column j can have an entry in row i only
+    if the pivot of row i lies to its left."""
+    for r in range(0, n):
+        for piv in itertools.combinations(range(n), r):
+            slots = [(i, j) for j in range(n) if j not in piv for i in range(r) if piv[i] < j]
+            for ent in itertools.product(entries, repeat=len(slots)):
+                mat = [[0] * n for _ in range(r)]
+                for i, pc in enumerate(piv):
+                    mat[i][pc] = 1
+                for (i, j), v in zip(slots, ent):
+                    mat[i][j] = v
+                yield piv, mat
+
+
+class SingularSolveStream(SolveStream):
+    """Systems that do NOT determine their unknowns, of every shape: for n = 2, 3, 4 unknowns every
+    reduced row echelon form of rank r < n over {-1, 0, 1} (every pivot set = every order of the
+    unknowns, every pattern of the free columns: absent from all rows, in one row, in several
+    rows), disguised by unimodular row operations, with dependent extra rows (k equations in n > k
+    unknowns ... square and over-square singular systems), consistent or not, with parameters, in
+    the spellings of the `solve` stream (terms on both sides, dropped zeros) and under a random
+    naming of the columns; plus all 2 x 3 and 1 x 3 matrices over {-1, 0, 1} and sampled singular
+    3 x 3 matrices as they are.  Same model, same oracle as `solve`: the statement demands a raise
+    for every one of these; the failure key tells the accepted shape (see `singular_shape`)."""
+    name = "solve-singular"
+    NAMES = ["x", "y", "z", "w"]
+
+    @staticmethod
+    def _rowop(rng, rows, rhs):
+        """one unimodular row operation on [rows | rhs] in place"""
+        m = len(rows)
+        if m >= 2 and rng.random() < 0.8:
+            i, k = rng.sample(range(m), 2)
+            c = rng.choice([1, -1, 1, -1, 2])
+            rows[i] = [a + c * b for a, b in zip(rows[i], rows[k])]
+            rhs[i] = [a + c * b for a, b in zip(rhs[i], rhs[k])]
+        elif m >= 1:
+            i = rng.randrange(m)
+            rows[i] = [-a for a in rows[i]]
+            rhs[i] = [-a for a in rhs[i]]
+
+    def _variant(self, rng, n, mat, n_ops, n_extra, inconsistent, tag):
+        vals = [-2, -1, 0, 1, 2]
+        params = PARAMS[:rng.choice([0, 1, 1, 2])]
+        w = len(params) + 1
+        rows = [list(r) for r in mat]
+        rhs = [[rng.choice(vals) for _ in range(w)] for _ in rows]
+        for _ in range(n_ops):
+            self._rowop(rng, rows, rhs)
+        base = list(zip(rows, rhs))
+        for _ in range(n_extra):
+            cs = [rng.choice([-1, 0, 1, 1, 2]) for _ in base]
+            rows.append([sum(c * a[j] for c, (a, _b) in zip(cs, base)) for j in range(n)])
+            rhs.append([sum(c * b[j] for c, (_a, b) in zip(cs, base)) for j in range(w)])
+        if inconsistent and n_extra:
+            k = len(rows) - 1 - rng.randrange(n_extra)
+            rhs[k][rng.randrange(w)] += rng.choice([1, -1, 2])
+        order = list(range(len(rows)))
+        rng.shuffle(order)
+        rows = [rows[i] for i in order]
+        rhs = [rhs[i] for i in order]
+        names = rng.sample(self.NAMES, n)
+        style = rng.choice(["plain", "plain", "drop0", "split", "twosided"])
+        pl = self._system(rng, names, rows, rhs, params, style)
+        pl["shape"] = tag
+        return pl
+
+    def cases(self, rng, tier):
+        quick = tier == "quick"
+        for n in (2, 3, 4):
+            pats = list(rref_patterns(n, [0, 1, -1]))
+            if not quick:
+                more = list(rref_patterns(n, [0, 1, -1, 2, -2]))
+                pats += more if len(more) <= 400 else rng.sample(more, 400)
+            for piv, mat in pats:
+                r = len(piv)
+                tag = f"n{n}r{r}"
+                if r == 0:
+                    # no unknown occurs at all: one or two rows 0 = rhs (and no equation at all)
+                    plans = [(0, 1, False), (0, 2, False), (0, 1, True)]
+                else:
+                    plans = [(0, 0, False),              # the reduced form itself
+                             (2, 0, False),              # disguised, k = r equations
+                             (1, 1, False),              # one dependent extra row
+                             (rng.randint(0, 2), n - r, False),     # square singular
+                             (rng.randint(0, 2), rng.randint(1, n - r + 1), True),   # inconsistent
+                             (rng.randint(1, 3), rng.randint(0, 1), False)]
+                reps = 1 if quick else 4
+                for _ in range(reps):
+                    for n_ops, n_extra, inc in plans:
+                        yield self._variant(rng, n, mat, n_ops, n_extra, inc, tag)
+        # the matrices as they are: every 1 x 3 and 2 x 3 matrix over {-1, 0, 1}, singular 3 x 3
+        small = [-1, 0, 1]
+        for m in (1, 2):
+            for ent in itertools.product(small, repeat=3 * m):
+                rows = [list(ent[3 * i:3 * i + 3]) for i in range(m)]
+                params = PARAMS[:rng.choice([0, 1, 2])]
+                rhs = [[rng.choice([-2, -1, 0, 1, 2]) for _ in range(len(params) + 1)] for _ in rows]
+                pl = self._system(rng, UNKNOWNS, rows, rhs, params,
+                                  rng.choice(["plain", "drop0", "split"]))
+                pl["shape"] = f"raw{m}x3"
+                yield pl
+        for _ in range(400 if quick else 6000):
+            n = rng.choice([3, 3, 4])
+            k = n - 1 if rng.random() < 0.7 else n - 2
+            vals = [-1, 0, 1, 1, 2, -2]
+            base = [[rng.choice(vals) for _ in range(n)] for _ in range(k)]
+            params = PARAMS[:rng.choice([0, 1, 2])]
+            w = len(params) + 1
+            brhs = [[rng.choice([-2, -1, 0, 1, 2]) for _ in range(w)] for _ in range(k)]
+            rows, rhs = [list(r) for r in base], [list(r) for r in brhs]
+            while len(rows) < n:
+                cs = [rng.choice([-1, 0, 1, 1, 2]) for _ in base]
+                rows.append([sum(c * a[j] for c, a in zip(cs, base)) for j in range(n)])
+                rhs.append([sum(c * b[j] for c, b in zip(cs, brhs)) for j in range(w)])
+            if rng.random() < 0.25:
+                rhs[-1][rng.randrange(w)] += rng.choice([1, -1])
+            order = list(range(n))
+            rng.shuffle(order)
+            pl = self._system(rng, rng.sample(self.NAMES, n), [rows[i] for i in order],
+                              [rhs[i] for i in order], params,
+                              rng.choice(["plain", "drop0", "split", "twosided"]))
+            pl["shape"] = f"square{n}"
+            yield pl
+        x = p.Variable("x")
+        yield {"unknowns": ["x", "y"], "eqs": [], "style": "example", "shape": "n2r0"}
+        yield {"unknowns": ["y", "x"], "eqs": [[dumps(expr_to_sx(x)), dumps(expr_to_sx(1))]],
+               "style": "example", "shape": "n2r1"}
+
+    def stats(self, pl, mo, io, acc):
+        super().stats(pl, mo, io, acc)
+        sh = acc.setdefault("shapes", {})
+        sh[pl["shape"]] = sh.get(pl["shape"], 0) + 1
+        if io.startswith("(sol"):
+            a = acc.setdefault("accepted_by_shape", {})
+            a[pl["shape"]] = a.get(pl["shape"], 0) + 1
 
 # }}}
 
@@ -1084,7 +1305,7 @@ PROP = Prop(
     lean_targets=["PV.Properties.C15", "PV.Properties.C15Table"],
     theorems=[],
     extractors=[extract],
-    streams=[CoeffStream(), GaussStream(), SolveStream(),
+    streams=[CoeffStream(), GaussStream(), SolveStream(), SingularSolveStream(),
              TableCoeffStream(), TableGaussStream(), TableSolveStream()],
     probes=[probe],
     trusted_base=["Lean 4.33 kernel; axioms propext, Classical.choice, Quot.sound only",
